@@ -56,7 +56,7 @@ func c11Value(mult, minRisk osmomath.Dec, amt sdkmath.Int) sdkmath.Int {
 
 func runC11(c *vk.Ctx) {
 	c.R.Rule = "cases = histories with 3 validators, 3 owners, a balancer uosmo/xxx share denom and a concentrated uosmo/xxx full-range share denom enabled as superfluid assets: LockAndSuperfluidDelegate, LockTokens + SuperfluidDelegate, top-ups, SuperfluidUndelegate, SuperfluidUnbondLock, SuperfluidUndelegateAndUnbondLock (partial), CreateFullRangePositionAndSuperfluidDelegate, BeginUnlocking attempts on delegated locks, swaps that move the pool price, 3..8 refresh epochs and jumps past the unbonding period. After every message and every epoch block: each intermediary account's stake vs the risk-adjusted value of exactly the locks delegated through it (exact right after the refresh, one unit per value conversion in between), exactly one superbonding marker per delegated lock and a superunbonding marker ending undelegation time + unbonding period per undelegating lock, SupplyWithOffset(uosmo) unchanged (minting is switched off in these histories), BeginUnlocking refused on delegated locks, no lock returned before its undelegation matured. distinct_nontrivial counts distinct (operation, outcome, #delegated locks bucket, #undelegating bucket, asset kind, right-after-refresh?) tuples."
-	nHist := c.N(180, 3600)
+	nHist := c.N(720, 3600)
 	c.Cases("history", nHist, func(i int, r *vk.Rng) {
 		ch := chain.New(chain.Options{Denoms: []string{"xxx"}, NumAccounts: 6, NumValidators: 3, Epochs: map[string]time.Duration{"day": 5 * time.Hour, "week": 6 * time.Hour}})
 		defer ch.Close()
